@@ -41,7 +41,7 @@ SliceByte == \E e \in Events :
           /\ pending > 0
           /\ impl' = IStep(impl, e) /\ ref' = RStep(ref, e) /\ pending' = pending - 1
           /\ UNCHANGED <<resets, T>>
-SetFixed == /\ FIXEDMODE /\ pending = 0 /\ impl.fixed = NIL
+SetFixed == /\ FIXEDMODE /\ pending = 0 /\ impl.fixed = NoSize
             /\ impl' = ISetFixed(impl, SzOf(T)) /\ UNCHANGED <<ref, pending, resets, T>>
 Reset == /\ pending = 0 /\ resets < MAXRESETS /\ SzToNat(ref.size) > 0
          /\ impl' = IReset(impl) /\ ref' = RInit /\ resets' = resets + 1
@@ -56,7 +56,7 @@ Agree == pending = 0 =>
              \A rzp \in (IF MCRollIsZero(ref.roll) THEN BOOLEAN ELSE {FALSE}) :
                LET i == IFinRz(impl, t, lg, rzp)
                    r == RFinRz(ref, t, lg, rzp) IN
-               IF impl.fixed # NIL /\ impl.fixed # impl.size THEN i.err = "Mismatch"
+               IF impl.fixed # NoSize /\ impl.fixed # impl.size THEN i.err = "Mismatch"
                ELSE i = r
 SizeOK == pending = 0 => impl.size = ref.size
 (* the progress fields stay inside the ranges the code's indexing relies on *)
